@@ -361,10 +361,17 @@ func vAudit(s *drv.Server, bucket string, m *model.VersionModel, keys []string, 
 			}
 		}
 		cands := m.Resolve(k)
+		unqVer := map[string]string{}
 		for _, method := range []string{"GET", "HEAD"} {
 			resp := s.Do(&drv.Req{Method: method, Path: drv.ObjPath(bucket, k)})
 			if r != nil {
 				r.Count("reads_unqualified", 1)
+			}
+			if resp.Status == 200 {
+				unqVer[method] = "id:" + resp.Header.Get("x-amz-version-id")
+			}
+			if g, okG := unqVer["GET"]; okG && method == "HEAD" && resp.Status == 200 && unqVer["HEAD"] != g {
+				return fail("head-version-id-differs-from-get", fmt.Sprintf("unqualified GET %s reports x-amz-version-id %q, HEAD reports %q", k, short(strings.TrimPrefix(g, "id:")), short(resp.Header.Get("x-amz-version-id"))))
 			}
 			if resp.Panic != nil {
 				return fail("panic", fmt.Sprintf("%s %s panicked: %v", method, k, resp.Panic))
